@@ -196,6 +196,47 @@ def run(prop, u, cases, obs, limit=30):
     return len(picked), True, ''
 
 
+def run_env(prop, cases, obs, limit=200):
+    """C17: the environments the children reported, evaluated by the model of parseOrDefault inside Coq
+    (guards the extraction of EnvParse and the judge's glue).  returns (checked, ok, detail)"""
+    seen, picked = set(), []
+    for cid, sx in cases:
+        if sx.strip() != '(env)':
+            continue
+        m = re.match(r'\(ok ([0-9a-f]*|-)\)$', obs.get(cid, '').strip())
+        if not m:
+            continue
+        raw = bytes.fromhex(m.group(1)) if m.group(1) != '-' else b''
+        if raw in seen or b'|' not in raw:
+            continue
+        seen.add(raw)
+        picked.append(raw.split(b'|', 1))
+        if len(picked) >= limit:
+            break
+    if not picked:
+        return 0, True, 'no environment observed'
+    d = os.path.join(CACHE, 'work', prop + '-coq')
+    os.makedirs(d, exist_ok=True)
+    src = ['From Coq Require Import List NArith Bool.', 'From Frugal Require Import EnvParse.',
+           'Import ListNotations.', 'Open Scope N_scope.',
+           'Definition checks : list bool := [', '  ' + ';\n  '.join('env_alive %s %s' % (nlist(a), nlist(b)) for a, b in picked), '].',
+           'Definition verdict : list bool := Eval vm_compute in checks.', 'Print verdict.']
+    path = os.path.join(d, 'SampleEnv.v')
+    with open(path, 'w') as fh:
+        fh.write('\n'.join(src) + '\n')
+    r = sh('timeout 300 coqc -Q %s Frugal %s' % (COQ, path), cwd=d, check=False, timeout=400)
+    out = ' '.join(r.stdout.split())
+    m = re.search(r'verdict = \[(.*?)\]', out)
+    if r.returncode != 0 or not m:
+        return len(picked), False, 'coqc failed: ' + out[-400:]
+    vals = [x.strip() for x in m.group(1).split(';')]
+    bad = [i for i, x in enumerate(vals) if x != 'true']
+    log('[%s] in-Coq environments: %d distinct, %d rejected by the model' % (prop, len(picked), len(bad)))
+    if bad:
+        return len(picked), False, 'environment %r is rejected by parse_or_default evaluated in Coq although the process lived' % (b'|'.join(picked[bad[0]]),)
+    return len(picked), True, ''
+
+
 def sx_of(e):
     if isinstance(e, str):
         return e
